@@ -114,6 +114,14 @@ fn render_hms(secs: i32, force_sign: bool) -> String {
 }
 
 fn render_name(rng: &mut Rng, utoff: i32, base: &str) -> String {
+    if rng.chance(1, 8) {
+        // the quoted form allows any mix of letters, digits, '+' and '-' (at least three characters)
+        return (*rng.pick(&["<UTC+3>", "<GMT-5>", "<A1B>", "<+03a>", "<x-y+z>", "<UTC>", "<-0330WET>", "<ABCDEFGHIJ+12>", "<123>", "<+-+>"])).to_string();
+    }
+    if rng.chance(1, 8) {
+        // unquoted: three or more letters, any case
+        return (*rng.pick(&["abc", "WEST", "Zzz", "LongerName", "eet"])).to_string();
+    }
     if rng.chance(1, 3) {
         // numeric designation as IANA writes it: <+0330>
         let a = utoff.unsigned_abs();
